@@ -63,6 +63,8 @@ structure St where
   sEnter : Nat            -- Start calls before `SetStateStarting`
   sp : SPc
   kEnter : Nat            -- Stop calls before the lock section
+  kDecided : Nat          -- Stop calls INSIDE the lock section that have read "Active" and not yet written
+                          -- "Stopping": while one is here it holds `sourceStateLock` (no other lock section can run)
   kWait : Nat             -- Stop calls that switched to Stopping, before/in `RunDoneWait`
   kClean : Nat            -- Stop calls after the wait, before returning
   lp : LPc
@@ -85,7 +87,7 @@ structure St where
 deriving DecidableEq, Repr
 
 def init (opens : Bool) : St :=
-  { st := .inactive, sEnter := 0, sp := .idle, kEnter := 0, kWait := 0, kClean := 0, lp := .off, pp := .off,
+  { st := .inactive, sEnter := 0, sp := .idle, kEnter := 0, kDecided := 0, kWait := 0, kClean := 0, lp := .off, pp := .off,
     abortClosed := false, nbClosed := false, wg := 0, writing := false, res := false, opens,
     crashed := false, fuel := 0, flag := false, rEnter := 0, rSend := 0, rWait := 0,
     runOver := false, stopsDone := 0 }
@@ -99,7 +101,7 @@ inductive Ev where
   | loopStart | gotBlock | processed | processFailed | gotRequest (nrep : Nat) (w : WEff) | reply
   | requestDone | gotClosed | gotError | loopDeactivate
   -- Stop
-  | callStop | stopNotActive | stopOnStarting | stopAlready | stopSwitched | stopWaited | stopCleaned
+  | callStop | stopNotActive | stopOnStarting | stopAlready | stopDecide | stopSwitched | stopWaited | stopCleaned
   -- producer
   | tick | send | sendError | abortSeen
   -- RPC layer
@@ -127,10 +129,10 @@ def step (s : St) (e : Ev) : Option St :=
   -- ---------------------------------------------------------------- Start (data_source.go Start)
   | .callStart => some { s with sEnter := s.sEnter + 1, stopsDone := 0 }
   | .startOk =>
-    if s.sEnter > 0 ∧ s.st = .inactive then
+    if s.sEnter > 0 ∧ s.st = .inactive ∧ s.kDecided = 0 then
       some { s with sEnter := s.sEnter - 1, sp := .starting, st := .starting } else none
   | .startRejected =>
-    if s.sEnter > 0 ∧ s.st ≠ .inactive then some { s with sEnter := s.sEnter - 1 } else none
+    if s.sEnter > 0 ∧ s.st ≠ .inactive ∧ s.kDecided = 0 then some { s with sEnter := s.sEnter - 1 } else none
   | .sampled =>
     if s.sp = .starting then some { s with sp := .sampled, res := s.res || s.opens } else none
   | .sampleFailed =>
@@ -145,16 +147,16 @@ def step (s : St) (e : Ev) : Option St :=
       some { s with sp := .prepared, abortClosed := false, nbClosed := false, fuel := f } else none
   | .prepareFailed => if s.sp = .chans ∧ s.opens = false then some { s with sp := .failing } else none
   | .setInactive =>
-    if s.sp = .failing then some { s with sp := .idle, st := .inactive } else none
+    if s.sp = .failing ∧ s.kDecided = 0 then some { s with sp := .idle, st := .inactive } else none
   | .activate =>
     -- `RunDoneActivate`, then `StartRun` begins: the producer goroutine may act from here on
-    if s.sp = .prepared then
+    if s.sp = .prepared ∧ s.kDecided = 0 then
       some { s with sp := .activated, st := .active, wg := s.wg + 1, pp := .run, runOver := false } else none
   | .runStarted =>
     if s.sp = .activated then some { s with sp := .idle, lp := .spawned } else none
   | .startRunFailed => if s.sp = .activated ∧ s.opens = false then some { s with sp := .runFailing, pp := .off } else none
   | .starterDeactivate =>
-    if s.sp = .runFailing then some { deactivate s with sp := .idle } else none
+    if s.sp = .runFailing ∧ s.kDecided = 0 then some { deactivate s with sp := .idle } else none
   -- ---------------------------------------------------------------- CoreLoop
   | .loopStart => if s.lp = .spawned then some { s with lp := .select } else none
   | .gotBlock =>
@@ -175,20 +177,26 @@ def step (s : St) (e : Ev) : Option St :=
     if s.lp = .select ∧ s.pp = .sendErr then some { s with lp := .exiting, pp := .done, res := false } else none
   | .loopDeactivate =>
     -- the loop's deferred functions: stop writing if active, then `RunDoneDeactivate`
-    if s.lp = .exiting then some { deactivate s with lp := .off, writing := false } else none
+    if s.lp = .exiting ∧ s.kDecided = 0 then some { deactivate s with lp := .off, writing := false } else none
   -- ---------------------------------------------------------------- AnySource.Stop
   | .callStop => some { s with kEnter := s.kEnter + 1 }
   | .stopNotActive =>
-    if s.kEnter > 0 ∧ s.st = .inactive then
+    if s.kEnter > 0 ∧ s.st = .inactive ∧ s.kDecided = 0 then
       some { s with kEnter := s.kEnter - 1, stopsDone := s.stopsDone + 1 } else none
   | .stopOnStarting =>
-    if s.kEnter > 0 ∧ s.st = .starting then some { s with crashed := true } else none
+    if s.kEnter > 0 ∧ s.st = .starting ∧ s.kDecided = 0 then some { s with crashed := true } else none
   | .stopAlready =>
-    if s.kEnter > 0 ∧ s.st = .stopping then
+    if s.kEnter > 0 ∧ s.st = .stopping ∧ s.kDecided = 0 then
       some { s with kEnter := s.kEnter - 1, stopsDone := s.stopsDone + 1 } else none
+  -- Stop's lock section on the Active path is two program points: the decision (lock taken, state read Active)
+  -- and the write.  Between them the caller HOLDS the lock: every other lock section is disabled (`kDecided = 0`
+  -- in their guards), so the state cannot change under the decision.
+  | .stopDecide =>
+    if s.kEnter > 0 ∧ s.st = .active ∧ s.kDecided = 0 then
+      some { s with kEnter := s.kEnter - 1, kDecided := s.kDecided + 1 } else none
   | .stopSwitched =>
-    if s.kEnter > 0 ∧ s.st = .active then
-      some { s with kEnter := s.kEnter - 1, kWait := s.kWait + 1, st := .stopping, abortClosed := true }
+    if s.kDecided > 0 then
+      some { s with kDecided := s.kDecided - 1, kWait := s.kWait + 1, st := .stopping, abortClosed := true }
     else none
   | .stopWaited =>
     if s.kWait > 0 ∧ s.wg = 0 then some { s with kWait := s.kWait - 1, kClean := s.kClean + 1 } else none
@@ -217,7 +225,8 @@ def step (s : St) (e : Ev) : Option St :=
   -- `SourceControl.Start` sets the flag after `Start` returned nil: some run has been started
   | .flagOn => if s.lp ≠ .off ∨ s.runOver then some { s with flag := true } else none
   | .flagOff => some { s with flag := false }
-  | .flagRefresh => some { s with flag := s.flag && (s.st = .active) }
+  -- `handlePossibleStoppedSource` reads `Running()` (a lock section)
+  | .flagRefresh => if s.kDecided = 0 then some { s with flag := s.flag && (s.st = .active) } else none
 
 def run (s : St) : List Ev → Option St
   | [] => some s
@@ -229,7 +238,7 @@ def run (s : St) : List Ev → Option St
 call only when no Start call is in flight (Stops may overlap each other, self-termination and requests);
 block processing does not hit an I/O failure. -/
 def envOK (s : St) : Ev → Bool
-  | .callStart => s.kEnter + s.kWait + s.kClean = 0
+  | .callStart => s.kEnter + s.kDecided + s.kWait + s.kClean = 0
   | .callStop => s.sEnter = 0 && s.sp = .idle
   | .processFailed => false      -- no I/O failure inside block processing (C11 treats it)
   | _ => true
@@ -255,7 +264,7 @@ def runW (s : St) : List Ev → Option St
       | none => none
     else none
 
-def stoppers (s : St) : Nat := s.kEnter + s.kWait + s.kClean
+def stoppers (s : St) : Nat := s.kEnter + s.kDecided + s.kWait + s.kClean
 def callers (s : St) : Nat := s.rEnter + s.rSend + s.rWait
 def starters (s : St) : Nat := s.sEnter + (if s.sp = .idle then 0 else 1)
 
@@ -298,6 +307,7 @@ def evOf (role : String) (site : String) (fuel : Nat) (nrep : Nat) (w : WEff) : 
   | "stop.notActive" => some .stopNotActive
   | "stop.onStarting" => some .stopOnStarting
   | "stop.alreadyStopping" => some .stopAlready
+  | "stop.onActive" => some .stopDecide
   | "stop.switched" => some .stopSwitched
   | "stop.waited" => some .stopWaited
   | "stop.cleaned" => some .stopCleaned
@@ -539,6 +549,26 @@ def chkFailedObs : List Tok → Bool → Option String
       | _ => chkFailedObs ts afterAct
     else chkFailedObs ts afterAct
 
+/-- is the last call that was issued (by trace order of `start.enter` / `stop.enter`) a Stop call? -/
+def lastIssuedIsStop : List Tok → Bool → Bool
+  | [], b => b
+  | t :: ts, b =>
+    if t.site == "stop.enter" then lastIssuedIsStop ts true
+    else if t.site == "start.enter" then lastIssuedIsStop ts false
+    else lastIssuedIsStop ts b
+
+/-- Oracle clauses that need nothing but the implementation's output: every call returned, the last call issued
+was a Stop ⇒ the source reports Inactive; a Start issued in these schedules (always on a source whose Stops have
+returned) is never refused by `SetStateStarting`. -/
+def chkImplOnly (ln : Line) (toks : List Tok) (calls : List (String × Nat)) (fin : Fin) : Option String :=
+  if fin.hang != 0 || calls.any (fun c => c.2 == 2) then
+    some "C10:hang a Start/Stop call did not return (watchdog)"
+  else if lastIssuedIsStop toks false && fin.st != 0 then
+    some s!"C10:not-inactive-after-stops all Stop calls returned (no Start issued since) but GetState() is {fin.st}, not Inactive"
+  else if ln.sched != "stopAt" && ln.kind != "udp" && countSite toks "state.startRejected" > 0 then
+    some "C10:restart-failed a Start call on a source whose Stop calls had all returned was refused (state not Inactive)"
+  else none
+
 /-- judge one executed schedule: property oracle on the implementation's own observations first, then trace
 conformance, outcomes against the model, property oracle with the model's bookkeeping -/
 def judgeRun (ln : Line) (toks0 : List Tok) (calls : List (String × Nat)) (fin : Fin) : Verdict :=
@@ -546,9 +576,9 @@ def judgeRun (ln : Line) (toks0 : List Tok) (calls : List (String × Nat)) (fin 
   match chkFailedObs toks false with
   | some v => .viol v
   | none =>
-  if fin.hang != 0 || calls.any (fun c => c.2 == 2) then
-    .viol "C10:hang a Start/Stop call did not return (watchdog)"
-  else
+  match chkImplOnly ln toks calls fin with
+  | some v => .viol v
+  | none =>
   match runTrace toks.length (init ln.opens) toks 0 0 false with
   | .rejected i tok s => .diff s!"trace-rejected at {i} {tok}: the model has no such step (st {stCode s.st} wg {s.wg} kWait {s.kWait})"
   | .unknown i tok => .diff s!"trace-unknown-token at {i} {tok}"
@@ -581,6 +611,7 @@ def judgeRun (ln : Line) (toks0 : List Tok) (calls : List (String × Nat)) (fin 
             (if countSite toks "rpc.notActive" > 0 then ["requestNotActive"] else []) ++
             (if countSite toks "loop.gotRequest" > 0 then ["request"] else []) ++
             (if countSite toks "start.startRunFailed" > 0 then ["startRunFailed"] else []) ++
+            (if ln.sched == "stopDecided" then ["gated", "selfEndInsideStop"] else []) ++
             (if ln.sched == "rnd" || ln.sched == "stopAt" || ln.sched == "reuse" || ln.sched == "timing" then ["gated"] else []) ++
             (if n > 60 then ["long"] else [])
           .ok tags
